@@ -74,6 +74,11 @@ def workspace(c):
         consumer += "#[typeshare]\npub struct Wrapper<Target> { pub w: Target, pub more: Vec<Target> }\n"
     path = {"lib": "consumer/src/lib.rs", "deep": "consumer/src/a/b.rs", "deeper": "consumer/src/x/y/z/w.rs"}[c["depth"]]
     files[path] = consumer
+    if c.get("second_file"):
+        # a second source file of the consumer crate, bringing in a type of the THIRD crate the same way
+        use2 = {"use_glob": "use third::*;\n", "qualified": ""}.get(form, "use third::Third;\n")
+        ty2 = "third::Third" if form == "qualified" else "Third"
+        files["consumer/src/more.rs"] = use2 + f"#[typeshare]\npub struct Consumer2 {{ pub z: {ty2}, pub zs: Option<{ty2}> }}\n"
     if form == "use_via_facade":
         files["facade/src/lib.rs"] = f"pub use {pcrate}::m::Target;\n#[typeshare]\npub struct FacadeOwn {{ pub f: u32 }}\n"
     if same_crate:
@@ -167,7 +172,7 @@ def run(chk):
         except Exception:  # noqa
             chk.extra["unreadable_outputs"] = chk.extra.get("unreadable_outputs", 0) + 1
             continue
-        expected = ([{"name": pre + "Wrapper", "file": exp["consumer"]}] if c.get("shadow") else []) + ([{"name": pre + "Pair", "file": exp["consumer"]}] if c.get("shape", "").startswith("gen_") else []) + [{"name": pre + "Consumer", "file": exp["consumer"]}, {"name": pre + "Third", "file": exp["third"]}, {"name": pre + "Other", "file": exp["provider"]}]
+        expected = ([{"name": pre + "Consumer2", "file": exp["consumer"]}] if c.get("second_file") else []) + ([{"name": pre + "Wrapper", "file": exp["consumer"]}] if c.get("shadow") else []) + ([{"name": pre + "Pair", "file": exp["consumer"]}] if c.get("shape", "").startswith("gen_") else []) + [{"name": pre + "Consumer", "file": exp["consumer"]}, {"name": pre + "Third", "file": exp["third"]}, {"name": pre + "Other", "file": exp["provider"]}]
         clash = c["dup"] and not c.get("dup_renamed")          # a renamed third-crate type has another name in the output
         if c.get("dup_renamed"):
             expected.append({"name": pre + "ThirdTarget", "file": exp["third"]})
@@ -212,7 +217,7 @@ def run(chk):
                     if e["designated"].get(i["name"]) == f["file"] and i["name"] in f["defs"]:
                         kinds.append("own-type-imported-from-elsewhere")
         for kind in sorted(set(kinds)) or ["unclassified"]:
-            chk.mismatch(f"C14/{lang}/{'' if c.get('root', 'plain') == 'plain' else 'root=' + c['root'] + '/'}{c['form']}{'+shadowing-generic-parameter' if c.get('shadow') else ''}{'' if c.get('shape', 'plain_and_vec') == 'plain_and_vec' else '+only-reference=' + c['shape']}/{'renamed' if c['renamed'] else 'plain'}/{('dup-renamed' if c.get('dup_renamed') else 'dup') if c['dup'] else 'nodup'}/{kind}",
+            chk.mismatch(f"C14/{lang}/{'' if c.get('root', 'plain') == 'plain' else 'root=' + c['root'] + '/'}{c['form']}{'+shadowing-generic-parameter' if c.get('shadow') else ''}{'' if c.get('shape', 'plain_and_vec') == 'plain_and_vec' else '+only-reference=' + c['shape']}{'+second-file-importing-another-crate' if c.get('second_file') else ''}/{'renamed' if c['renamed'] else 'plain'}/{('dup-renamed' if c.get('dup_renamed') else 'dup') if c['dup'] else 'nodup'}/{kind}",
                          f"{lang}: {kind} for workspace {c}: files {fobs}", {"case": c, "lang": lang}, "Workspace!PartitionOk /\\ ImportsOk", fobs)
     chk.traces += len(events) - len(tres.bad)
     chk.extra["trace_events"] = len(events)
